@@ -28,6 +28,9 @@ func tagTree(c string) TMap {
 		"m": map[string]interface{}{
 			"b": c + "/m/b",
 			"g": []byte(c + "/m/g"),
+			// two sibling keys whose pointers need RFC 6901 escapes; the raw segment of the first pointer spells the second key
+			"x/y":  c + "/m/x~1y",
+			"x~1y": c + "/m/x~01y",
 			"n": map[string]interface{}{
 				"c": c + "/m/n/c",
 				"f": c + "/m/n/f",
@@ -43,7 +46,8 @@ func leavesOf(v interface{}, prefix string, out map[string][]byte) {
 		leavesOf(map[string]interface{}(x), prefix, out)
 	case map[string]interface{}:
 		for k, val := range x {
-			leavesOf(val, prefix+"/"+k, out)
+			// a leaf is named by the pointer that addresses it: "~" is written "~0" and "/" is written "~1"
+			leavesOf(val, prefix+"/"+strings.ReplaceAll(strings.ReplaceAll(k, "~", "~0"), "/", "~1"), out)
 		}
 	case string:
 		out[prefix] = []byte(x)
